@@ -30,6 +30,8 @@
 #include "llvm/Support/TargetSelect.h"
 #include "llvm/Support/raw_ostream.h"
 #include "llvm/Target/TargetMachine.h"
+#include "llvm/Analysis/ValueTracking.h"
+#include "llvm/Transforms/Utils/Cloning.h"
 #include <memory>
 #include <string>
 #include <vector>
@@ -250,10 +252,101 @@ struct Dumper {
   }
 };
 
+// ---- memory-safety records ------------------------------------------------------------------------------------------------------------
+// Run on a clone of the unoptimised module after inlining + mem2reg + sccp + simplifycfg only (no instcombine / SROA / memcpy optimisation, which
+// may narrow or delete an out-of-bounds access): every load, store and constant-length memcpy / memmove / memset whose address is a constant offset
+// into an alloca, a kernel argument or a global is recorded as in bounds / out of bounds and aligned / misaligned.  Objects and offsets are what the
+// front end emitted for the instantiated templates, so a wrong sizeof in a memcpy or an aligned SIMD load from a packed object is visible here for
+// every input at once.  Output: one JSON line per kernel {func, ok, unknown, records:[violations and unknown-base samples]}.
+static void memDbg(raw_ostream &OS, const Instruction &I) {
+  OS << "[";
+  bool first = true;
+  for (const DILocation *L = I.getDebugLoc().get(); L; L = L->getInlinedAt()) {
+    if (!first) OS << ","; first = false;
+    StringRef fn; if (auto *SP = L->getScope()->getSubprogram()) fn = SP->getName();
+    OS << "[\"" << esc(L->getFilename()) << "\"," << L->getLine() << ",\"" << esc(fn) << "\"]";
+  }
+  OS << "]";
+}
+static void memcheckFunc(Function &F, const DataLayout &DL, raw_ostream &OS) {
+  // kernel meta table: kmeta_<name> = { sizeof(arg0), alignof(arg0), ... }
+  std::vector<std::pair<uint64_t, uint64_t>> argInfo;
+  if (auto *G = F.getParent()->getNamedGlobal(("kmeta_" + F.getName()).str()))
+    if (G->hasInitializer()) if (auto *CA = dyn_cast<ConstantDataArray>(G->getInitializer()))
+      for (unsigned i = 0; i + 1 < CA->getNumElements(); i += 2) argInfo.push_back({CA->getElementAsInteger(i), CA->getElementAsInteger(i + 1)});
+  unsigned ok = 0, unknown = 0, varidx = 0; std::string recs; raw_string_ostream RS(recs); bool firstRec = true; unsigned nrec = 0;
+  auto emit = [&](const Instruction &I, const char *what, const char *kind, const char *objk, std::string objn, int64_t off, uint64_t size, uint64_t osize, uint64_t need, uint64_t oalign) {
+    if (nrec++ > 40) return;
+    if (!firstRec) RS << ","; firstRec = false;
+    RS << "{\"what\":\"" << what << "\",\"kind\":\"" << kind << "\",\"obj\":\"" << objk << "\",\"name\":\"" << esc(objn) << "\",\"off\":" << off << ",\"size\":" << size
+       << ",\"objsize\":" << osize << ",\"need_align\":" << need << ",\"objalign\":" << oalign << ",\"dbg\":";
+    memDbg(RS, I); RS << "}";
+  };
+  unsigned own = 0;
+  auto check = [&](const Instruction &I, const Value *Ptr, uint64_t size, uint64_t need, const char *kind) {
+    // accesses written in the kernel itself (innermost frame is the kernel's #line tag) are the harness's, not the library's
+    if (const DILocation *L0 = I.getDebugLoc().get()) { if (L0->getFilename().startswith("k_")) { ++own; return; } }
+    APInt Off(DL.getIndexTypeSizeInBits(Ptr->getType()), 0);
+    const Value *Base = Ptr->stripAndAccumulateConstantOffsets(DL, Off, /*AllowNonInbounds=*/true);
+    int64_t off = Off.getSExtValue();
+    uint64_t osize = 0, oalign = 1; const char *objk = nullptr; std::string objn;
+    if (auto *A = dyn_cast<AllocaInst>(Base)) {
+      if (!A->isStaticAlloca() || A->isArrayAllocation()) { ++unknown; return; }
+      osize = DL.getTypeAllocSize(A->getAllocatedType()).getFixedSize(); oalign = A->getAlign().value(); objk = "local"; objn = tyStr(A->getAllocatedType());
+    } else if (auto *Ar = dyn_cast<Argument>(Base)) {
+      if (Ar->getArgNo() >= argInfo.size()) { ++unknown; return; }
+      osize = argInfo[Ar->getArgNo()].first; oalign = argInfo[Ar->getArgNo()].second; objk = "arg"; objn = std::to_string(Ar->getArgNo());
+      if (osize == 0) { ++unknown; return; }      // a pointer to a scalar may be the first element of a caller's array: extent unknown
+    } else if (auto *G = dyn_cast<GlobalVariable>(Base)) {
+      osize = DL.getTypeAllocSize(G->getValueType()).getFixedSize(); oalign = G->getAlign().valueOrOne().value(); objk = "global"; objn = G->getName().str();
+      if (G->isDeclaration()) { ++unknown; return; }
+    } else {
+      // variable index, phi / select of pointers, pointer loaded from memory or returned by a call: not decided here
+      if (isa<GetElementPtrInst>(Base) || isa<GEPOperator>(Base)) ++varidx; else ++unknown;
+      return;
+    }
+    bool bad = false;
+    if (off < 0 || (uint64_t)off + size > osize) { emit(I, "out_of_bounds", kind, objk, objn, off, size, osize, need, oalign); bad = true; }
+    if (need > 1) {
+      uint64_t a = std::min(need, oalign);
+      if (need > oalign || (off % (int64_t)a) != 0) { emit(I, "misaligned", kind, objk, objn, off, size, osize, need, oalign); bad = true; }
+    }
+    if (!bad) ++ok;
+  };
+  for (auto &BB : F) for (auto &I : BB) {
+    if (auto *L = dyn_cast<LoadInst>(&I)) check(I, L->getPointerOperand(), DL.getTypeStoreSize(L->getType()).getFixedSize(), L->getAlign().value(), "load");
+    else if (auto *S = dyn_cast<StoreInst>(&I)) check(I, S->getPointerOperand(), DL.getTypeStoreSize(S->getValueOperand()->getType()).getFixedSize(), S->getAlign().value(), "store");
+    else if (auto *MI = dyn_cast<MemIntrinsic>(&I)) {
+      auto *Len = dyn_cast<ConstantInt>(MI->getLength());
+      if (!Len) { ++unknown; continue; }
+      uint64_t n = Len->getZExtValue(); if (n == 0) continue;
+      check(I, MI->getRawDest(), n, 1, isa<MemSetInst>(MI) ? "memset" : "memcpy_dst");
+      if (auto *MT = dyn_cast<MemTransferInst>(MI)) check(I, MT->getRawSource(), n, 1, "memcpy_src");
+    }
+  }
+  RS.flush();
+  OS << "{\"func\":\"" << esc(F.getName()) << "\",\"ok\":" << ok << ",\"unknown\":" << unknown << ",\"varidx\":" << varidx << ",\"own\":" << own << ",\"args\":" << argInfo.size() << ",\"records\":[" << recs << "]}\n";
+}
+static bool runMemcheck(Module &Src, const std::string &out, const std::string &prefix) {
+  std::unique_ptr<Module> M = CloneModule(Src);
+  for (Function &F : *M) { if (F.isDeclaration()) continue; if (F.hasFnAttribute(Attribute::OptimizeNone)) continue; }
+  LoopAnalysisManager LAM; FunctionAnalysisManager FAM; CGSCCAnalysisManager CGAM; ModuleAnalysisManager MAM;
+  PassBuilder PB;
+  PB.registerModuleAnalyses(MAM); PB.registerCGSCCAnalyses(CGAM); PB.registerFunctionAnalyses(FAM); PB.registerLoopAnalyses(LAM);
+  PB.crossRegisterProxies(LAM, FAM, CGAM, MAM);
+  ModulePassManager MPM;
+  if (auto Err = PB.parsePassPipeline(MPM, "always-inline,cgscc(inline),function(mem2reg,sccp,simplifycfg,mem2reg,sccp,simplifycfg)")) { errs() << "irtool: memcheck pipeline: " << toString(std::move(Err)) << "\n"; return false; }
+  MPM.run(*M, MAM);
+  std::error_code EC; raw_fd_ostream OS(out, EC);
+  if (EC) return false;
+  for (Function &F : *M) { if (F.isDeclaration()) continue; if (!F.getName().startswith(prefix)) continue; memcheckFunc(F, M->getDataLayout(), OS); }
+  return true;
+}
+
 int main(int argc, char **argv) {
   if (argc < 3) { errs() << "usage: irtool in.ll out.jsonl [--prefix P] [--noinline RE]... [--no-opt] [--emit-ll F] [--inline-threshold N]\n"; return 2; }
-  std::string in = argv[1], out = argv[2], prefix = "k_", emitll, inlThr = "100000", peel;
-  std::vector<std::string> noinl; bool doOpt = true;
+  std::string in = argv[1], out = argv[2], prefix = "k_", emitll, inlThr = "100000", peel, memout;
+  std::vector<std::string> noinl; bool doOpt = true, memOnly = false;
   for (int i = 3; i < argc; ++i) {
     std::string a = argv[i];
     if (a == "--prefix" && i + 1 < argc) prefix = argv[++i];
@@ -262,6 +355,8 @@ int main(int argc, char **argv) {
     else if (a == "--emit-ll" && i + 1 < argc) emitll = argv[++i];
     else if (a == "--inline-threshold" && i + 1 < argc) inlThr = argv[++i];
     else if (a == "--peel" && i + 1 < argc) peel = argv[++i];
+    else if (a == "--memcheck" && i + 1 < argc) memout = argv[++i];
+    else if (a == "--mem-only") memOnly = true;
     else { errs() << "irtool: bad arg " << a << "\n"; return 2; }
   }
   {
@@ -288,6 +383,8 @@ int main(int argc, char **argv) {
       }
     }
   }
+  if (!memout.empty() && !runMemcheck(*M, memout, prefix)) { errs() << "irtool: memcheck failed\n"; return 2; }
+  if (memOnly) { std::error_code EC0; raw_fd_ostream O0(out, EC0); return 0; }
   if (doOpt) {
     InitializeNativeTarget(); InitializeNativeTargetAsmPrinter();
     std::string err; std::unique_ptr<TargetMachine> TM;
